@@ -8,7 +8,10 @@ rows = []
 for d in sorted(glob.glob(os.path.join(ROOT, "seeded", "*", ""))):
     m = json.load(open(d + "meta.json"))
     det = (m.get("detection") or {}).get("quick") or {}
-    rows.append((os.path.basename(d.rstrip("/")), m["property"], (m.get("summary") or "").replace("|", "/").replace("\n", " ")[:230], (m.get("needs_to_manifest") or "").replace("|", "/").replace("\n", " ")[:200], "detected (%d VIOLATION lines)" % det.get("violation_lines", 0) if det.get("detected") else f"NOT detected ({det.get('exit')})"))
+    if m.get("neutralised_by_fix"):
+        pc = m["detection"].get("pinned-commit", {})
+        det = dict(detected=pc.get("detected"), violation_lines=pc.get("violation_lines", 0), exit=pc.get("exit"), on="pinned commit; on the repaired tree this change is no longer a defect (its demo passes)")
+    rows.append((os.path.basename(d.rstrip("/")), m["property"], (m.get("summary") or "").replace("|", "/").replace("\n", " ")[:230], (m.get("needs_to_manifest") or "").replace("|", "/").replace("\n", " ")[:200], ("detected (%d VIOLATION lines)" % det.get("violation_lines", 0) if det.get("detected") else f"NOT detected ({det.get('exit')})") + (f" [{det['on']}]" if det.get("on") else "")))
 txt = ["## 14. Seeded defects: which check catches which change", "",
        "Each change below was produced by a fresh sub-agent that saw only the text of one property and its own scratch worktree of",
        "/repo (nothing from /verif), asked for a realistic change that breaks the property, still compiles and passes the existing",
